@@ -157,3 +157,54 @@ Definition run_c05_bn (s : sx) : sx :=
       end
   | _ => bad_request
   end.
+
+(* sessions on ONE CPD object: [ctor [op ...]] with op = [0 new_order] reorder_parents(inplace=True) |
+   [1 X] marginalize(inplace=True) | [2 values] reduce(inplace=True) | [3] normalize(inplace=True) |
+   [4] self := self.copy()  ->  the object after every operation, [[0 cpd is_valid] | [1 err_code] ...];
+   an operation that raises leaves the object as the model says (unchanged: all modelled errors of these
+   calls precede any mutation, except ErrKey/ErrIndex which the harness does not continue after);
+   a result with non-finite entries ends the session (reply [2 ocpd]) *)
+Definition dec_op (s : sx) : option (nat * list nat * list (var * name)) :=
+  match s with
+  | SL [SZ 0%Z; so] => match sx_list sx_nat so with Some o => Some (0, o, []) | None => None end
+  | SL [SZ 1%Z; sxs] => match sx_list sx_nat sxs with Some X => Some (1, X, []) | None => None end
+  | SL [SZ 2%Z; svs] => match sx_list (sx_pair sx_nat sx_Z) svs with Some v => Some (2, [], v) | None => None end
+  | SL [SZ 3%Z] => Some (3, [], [])
+  | SL [SZ 4%Z] => Some (4, [], [])
+  | _ => None
+  end.
+
+Definition step_o (r : err + ocpd) : (err + cpd) + ocpd :=
+  match r with
+  | inl e => inl (inl e)
+  | inr oc => match ocpd_finite oc with Some c => inl (inr c) | None => inr oc end
+  end.
+
+Fixpoint session (c : cpd) (ops : list (nat * list nat * list (var * name))) : list sx :=
+  match ops with
+  | [] => []
+  | (k, l, vs) :: r =>
+      let res : (err + cpd) + ocpd :=
+        match k with
+        | 0 => match reorder_parents c l true with inl e => inl (inl e) | inr (c', _) => inl (inr c') end
+        | 1 => step_o (marginalize c l)
+        | 2 => step_o (reduce c vs)
+        | 3 => step_o (inr (normalize c))
+        | _ => inl (copy c)
+        end in
+      match res with
+      | inl (inr c') => SL [of_nat 0; of_cpd c'; of_bool (is_valid_cpd c')] :: session c' r
+      | inl (inl e) => SL [of_nat 1; SZ (err_code e)] :: session c r
+      | inr oc => [SL [of_nat 2; of_ocpd oc]]
+      end
+  end.
+
+Definition run_c05_session (s : sx) : sx :=
+  match s with
+  | SL [a; sops] =>
+      match sx_list dec_op sops with
+      | Some ops => with_cpd a (fun c => sx_ok (SL (session c ops)))
+      | None => bad_request
+      end
+  | _ => bad_request
+  end.
